@@ -400,8 +400,9 @@ def _h_call_alt(I, args, kwargs, node):
     a = list(args)
     ctx, cls = a[0], a[1]
     argv = a[2] if len(a) > 2 else kw.pop('args', ())
-    if len(a) > 3 or kw:
-        raise OutsideSubset('pretty_call_alt call shape (kwargs / trailing_comment) in a printer')
+    if len(a) > 3 or kw or (is_z3(argv) and I.sort_of(argv) == 'ValList'):
+        # the full call shape (keyword arguments / trailing comment): through the CONTRACT of pretty_call_alt
+        return I.call_contract(C.fns[PP + ':pretty_call_alt'], list(args), dict(kwargs), node)
     return S(I, 'call_alt', I.coerce(ctx, 'Ctx'), I.coerce(cls, 'Cls'), _to_list(I, 'ArgList', argv, _to_arg))
 
 
@@ -1241,3 +1242,19 @@ def _m_replace(I, obj, args, kwargs, node):
 
 
 U.method_hooks[('Ctx', '_replace')] = _m_replace
+
+
+# ==== pretty_call: the *args / **kwargs front end of pretty_call_alt (C17) =========================================================
+_HUG2 = _HUG
+_pc = C.contract(
+    PP, 'pretty_call', params={'ctx': 'Ctx', 'fn': 'Cls'}, returns='Doc',
+    ensures=[('depth-cut-placeholder-keeps-the-name', 'implies(ctx.depth_left <= 0, result == cat([ident(fn), LPAREN, ELLIPSIS, RPAREN]))'),
+             ('hugged-sole-argument-consumes-no-level', 'implies(ctx.depth_left > 0 and %s, result == fncall(ctx, ident(fn), '
+                                                        '[doc_of(args[0], ctx)], [], True, None))' % _HUG2),
+             ('name-then-every-positional-then-every-keyword-argument-in-order',
+              'implies(ctx.depth_left > 0 and not %s, result == fncall(ctx, ident(fn), map_doc(args, nested(ctx, MULTILINE_STRATEGY_HANG)), '
+              'map_kwdoc(kwargs, nested(ctx, MULTILINE_STRATEGY_HANG)), False, None))' % _HUG2)],
+    serves=['C17', 'C11'],
+    note='the positional pack is the argument sequence, the keyword pack the (name, value) pairs in the order the caller wrote them '
+         '(Python keeps keyword order, PEP 468); proved against the CONTRACT of pretty_call_alt, not its body')
+_pc.packs = {'args': 'ValList', 'kwargs': 'KwList'}
